@@ -268,7 +268,8 @@ MANIFEST_ENTRY = dict(
          'population with the documented argument order, absorbing terms only on the all-zero / all-one corner lines, rhs phi/dt), solves it, '
          'writes only its own line and stays in bounds. Integration.py: one step and two consecutive steps of one_pop..five_pops (dt, influx and sweeps '
          're-evaluated at each step\'s own time), all-scalar parameters handed to the constant integrators slot by slot (T and initial_t unchanged), '
-         'the 1-3-D constant integrators entry-wise equal to the kernel system. Round-off agreement, whole multi-step integrations '
+         'the 1-3-D constant integrators entry-wise equal to the kernel system and unchanged coefficients / per-step dt over two consecutive steps, a fresh C-contiguous '
+         'copy of the density and a contiguous grid reaching the kernels whatever the memory layout of the arrays passed in. Round-off agreement, whole multi-step integrations '
          '(constant vs function-of-time parameters) are checked by the bounded dense-reference driver, not proved.',
     note='double=real, int=integer; no aliasing between distinct pointer parameters; pivots non-zero; exp uninterpreted; disjoint-line loop rule; '
          'Cython wrapper only checked for argument order (no Cython in the sandbox)',
